@@ -391,7 +391,7 @@ def part_b(tier, wd, agg, cov):
 
     with ThreadPoolExecutor(max_workers=shards) as ex:
         reports = list(ex.map(one, range(shards)))
-    st = {"scripts": 0, "unpredicted": 0, "deviating": 0}
+    st = {"scripts": 0, "unpredicted": 0, "deviating": 0, "abandoned": 0}
     for rp in reports:
         for v in vlib.read_ndjson(rp):
             if v["kind"] == "stats":
